@@ -62,6 +62,8 @@ def cases(rng, tier):
                     'Dmax': rng.choice([1, 2, 3, 4]), 'scale': rng.choice([1.0, 2.5, 0.3]),
                     'prep': rng.choice(['none', 'none', 'none', 'left']), 'between': rng.choice(['none', 'none', 'left']),
                     'sdtype': 'real' if rng.random() < 0.35 else 'complex'})
+        if rng.random() < 0.07:
+            out[-1]['steps'] = 0        # 'any number of steps': zero steps still normalise the state and return its norm
     SR.mark_replay(out, {'quick': 24, 'thorough': 120, 'search': 0}[tier], 'steps')
     return out
 
@@ -125,7 +127,7 @@ def prop(case, r):
     if 'error' in r:
         return ['TDVP raised %s: %s' % (r['error'], r.get('detail', ''))]
     msgs = []
-    tol = 1e-9 * (1 + r['hscale']) * case['steps'] * case['repeat'] * 10
+    tol = 1e-9 * (1 + r['hscale']) * max(case['steps'], 1) * case['repeat'] * 10
     exp_ret = [r['norm0']] + [1.0] * (len(r['rets']) - 1)
     for k, (ret, nr, en) in enumerate(zip(r['rets'], r['norms'], r['energies'])):
         if abs(ret - exp_ret[k]) > 1e-9 * (1 + exp_ret[k]):
